@@ -191,7 +191,7 @@ func doCast(result interface{}, tInfo string) (interface{}, ast.DType) {
 	case "float":
 		return conv.ToFloat64(result), ast.Float
 
-	case "str":
+	case "str", "string": // the checker accepts both spellings
 		return conv.ToString(result), ast.String
 	}
 
